@@ -1360,7 +1360,7 @@ type vc03Alphabet struct {
 
 func vc03NumVals(thorough bool) []vc03Val {
 	ints := []string{"0", "1", "5", "-5", "010", "9223372036854775807", "-9223372036854775808"}
-	decs := []string{"1.5", "-1.5", "2.25", "0.001", "0.002", "2.125", "100.5"}
+	decs := []string{"1.5", "-1.5", "2.25", "0.001", "0.002", "2.125", "100.5", "16777217.5"}
 	if thorough {
 		ints = append(ints, "2", "10", "-1", "42", "9007199254740993", "-9223372036854775807", "1000000")
 		decs = append(decs, "0.5", "-0.25", "0.1", "2.675", "1.005", "123456789.25", "-0.004", "3.14159", "0.000001")
